@@ -35,6 +35,9 @@ RULE = (
     "upper-case letter / zone has >=1 delegation with glue and >=1 empty non-terminal"
     ' NSEC bitmaps are compared octet for octet with an RFC 4034 4.1.2 encoder; key tags include keys steered at the double-carry boundary.'
 )
+RULE += (
+    " Round 9 added: sibling labels around '.' (a-1, A\\000, a!, a., a.b, sub-net) so that label-by-label order differs from any flattened order."
+)
 ASSUMPTIONS = [
     "vlib/ref/canon.py and vlib/ref/dnssec_ref.py (hashlib only) are the trusted references",
     "class CH 'A' is outside the RFC 4034 6.2 list's scope and is skipped in the canonical-form check",
